@@ -151,7 +151,7 @@ class Daemon:
         self.env["NANOLANG_VERIF_VMD_DIR"] = vmd_dir
         self.client_env = dict(self.env)
         if trace:
-            self.env["NANOLANG_VERIF_VMD_TRACE"] = trace
+            self.env["NANOLANG_VERIF_TRACE_VMD"] = trace
         if yield_seed:
             self.env["NANOLANG_VERIF_YIELD"] = str(yield_seed)
         self.logpath = log or os.path.join(vmd_dir, "daemon.err")
